@@ -151,7 +151,7 @@ class RaftOracle(object):
                 v.last_log = None
 
     def on_submit(self, tag, host, meth):
-        self.subs[tag] = (host.idx, self.w.evno, meth)
+        self.subs[tag] = (host.idx, self.w.evno, meth, host.inc)
 
     def on_state(self, host, old, new):
         """Called synchronously from conf.onStateChanged (inside a tick)."""
@@ -400,8 +400,8 @@ class RaftOracle(object):
             g = self.Gdec.get(pos)
             if g is None:
                 self.flag('applied_not_committed', 'host %d executed position %d which no node has reported committed' % (host.idx, pos))
-            elif g[0] != 'regular' or not g[2] or g[2][0] != tag:
-                self.flag('apply_tag_mismatch', 'host %d executed %r at position %d, the common sequence holds %r' % (host.idx, tag, pos, (g[0], g[1], g[2][:1] if g[2] else None)))
+            elif g[0] != 'regular' or not isinstance(g[2], (tuple, list)) or not g[2] or g[2][0] != tag:
+                self.flag('apply_tag_mismatch', 'host %d executed %r at position %d, the common sequence holds %r' % (host.idx, tag, pos, repr(g[:3])[:120]))
         v.exec_pos = last
         if applied == prev and not mine:
             return
@@ -431,7 +431,7 @@ class RaftOracle(object):
     def _callbacks(self, cbs):
         FR = M.cf.FAIL_REASON
         never = (FR.QUEUE_FULL, FR.MISSING_LEADER, FR.NOT_LEADER, FR.REQUEST_DENIED, FR.DISCARDED)
-        for tag, res, err, idx in cbs:
+        for tag, res, err, idx, _pos in cbs:
             lst = self.cbs.setdefault(tag, [])
             lst.append((res, err, self.w.evno))
             if len(lst) > 1:
